@@ -705,7 +705,7 @@ Lemma cntk_assoc_set : forall k v cs old j, assoc_find k cs = Some old ->
   cntk (assoc_set k v cs) j = cntk cs j - cnt (opt_ids old) j + cnt (opt_ids v) j.
 Proof.
   induction cs as [|[k' v'] t IH]; intros old j H; simpl in *; [discriminate|].
-  destruct (keq k' k).
+  destruct (keq (kstrip k') k).
   - inversion H; subst. rewrite !cntk_cons. lia.
   - rewrite !cntk_cons, (IH old j H). lia.
 Qed.
@@ -714,7 +714,7 @@ Lemma cntk_assoc_del : forall k cs old j, assoc_find k cs = Some old ->
   cntk (assoc_del k cs) j = cntk cs j - cnt (opt_ids old) j.
 Proof.
   induction cs as [|[k' v'] t IH]; intros old j H; simpl in *; [discriminate|].
-  destruct (keq k' k).
+  destruct (keq (kstrip k') k).
   - inversion H; subst. rewrite !cntk_cons. lia.
   - rewrite !cntk_cons, (IH old j H). lia.
 Qed.
@@ -783,23 +783,30 @@ Proof.
   destruct (c =? p) eqn:E; [|reflexivity]. apply Z.eqb_eq in E. subst. exfalso. apply NR. constructor.
 Qed.
 
-Lemma obj_add_ok : forall s L p k v,
+Lemma obj_add_ex_ok : forall s L p k v nw cst,
   Inv (heap_of s) L -> live_kind (heap_of s) p KObject ->
   (v = Some p \/ transfer_ok (heap_of s) L p v) ->
-  res_ok s (Ltransfer L v) (obj_add s p k v).
+  res_ok s (Ltransfer L v) (obj_add_ex s p k v nw cst).
 Proof.
-  intros s L p k v I (n & F & K) A. unfold obj_add. rewrite F, K. simpl.
+  intros s L p k v nw cst I (n & F & K) A. unfold obj_add_ex. rewrite F, K. simpl.
   destruct (opt_is v p) eqn:S.
   - apply res_ok_fail; auto.
   - assert (TR : transfer_ok (heap_of s) L p v).
     { destruct A as [A|A]; [|auto]. subst v. simpl in S. rewrite Z.eqb_refl in S. discriminate. }
-    destruct (assoc_find k (children n)) as [old|] eqn:AF.
-    + apply res_ok_container; auto. intros j. apply cntk_assoc_set; auto.
-    + change (ROk (mkSt (hset (heap_of s) p (set_children n (children n ++ [(k, v)]))) (nxt s)) 0 [])
-        with (lift_l (nxt s) 0 (release_list (hset (heap_of s) p (set_children n (children n ++ [(k, v)]))) [])).
+    destruct (if nw then None else assoc_find k (children n)) as [old|] eqn:AF.
+    + destruct nw; [discriminate|].
+      apply res_ok_container; auto. intros j. apply cntk_assoc_set; auto.
+    + match goal with |- res_ok _ _ (ROk (mkSt ?h1 _) 0 []) =>
+        change (ROk (mkSt h1 (nxt s)) 0 []) with (lift_l (nxt s) 0 (release_list h1 [])) end.
       apply res_ok_container; auto. intros j. rewrite cntk_app, cntk_cons. simpl.
       change (cntk [] j) with 0. lia.
 Qed.
+
+Lemma obj_add_ok : forall s L p k v,
+  Inv (heap_of s) L -> live_kind (heap_of s) p KObject ->
+  (v = Some p \/ transfer_ok (heap_of s) L p v) ->
+  res_ok s (Ltransfer L v) (obj_add s p k v).
+Proof. intros. unfold obj_add. apply obj_add_ex_ok; auto. Qed.
 
 Lemma obj_del_ok : forall s L p k,
   Inv (heap_of s) L -> live_kind (heap_of s) p KObject ->
@@ -999,8 +1006,8 @@ Section Copy.
         - intro X. apply RNE. apply (no_inedge_no_reach (heap_of s1) r me); auto.
           apply (sole_owner_no_inedge _ (upd L r 1) me m); auto.
           rewrite upd_other by auto. lia. }
-      destruct (attach_ok s1 (upd L r 1) me m k (Some r) I1 FM1 TR) as (I2 & N2 & F2 & O2).
-      set (s2 := attach s1 me k (Some r)) in *.
+      destruct (attach_ok s1 (upd L r 1) me m (kstrip k) (Some r) I1 FM1 TR) as (I2 & N2 & F2 & O2).
+      set (s2 := attach s1 me (kstrip k) (Some r)) in *.
       assert (SI2 : SInv s2 L).
       { split; [|split].
         - eapply Inv_ext; [|exact I2]. intros j. simpl. unfold upd. destruct (j =? r); lia.
@@ -1013,7 +1020,7 @@ Section Copy.
       specialize (IH s2 L SI2 BO2 LM).
       destruct (copy_kids C me t s2) as [s3| | |]; auto.
       + destruct IH as (SI3 & M3 & GR3); auto.
-        * exists (set_children m (children m ++ [(k, Some r)])). split; [auto|simpl; auto].
+        * exists (set_children m (children m ++ [(kstrip k, Some r)])). split; [auto|simpl; auto].
         * intros x X. apply KS. simpl. auto.
         * split; [auto|]. split; [auto|].
           eapply grows_trans; [|exact GR3].
@@ -1022,14 +1029,14 @@ Section Copy.
           -- intros j Hj Hj2. destruct (Z.eq_dec j me); [subst; congruence|].
              rewrite O2 in Hj2 by auto. rewrite N2. apply G3; auto.
       + apply IH; auto.
-        * exists (set_children m (children m ++ [(k, Some r)])). split; [auto|simpl; auto].
+        * exists (set_children m (children m ++ [(kstrip k, Some r)])). split; [auto|simpl; auto].
         * intros x X. apply KS. simpl. auto.
       + apply IH; auto.
-        * exists (set_children m (children m ++ [(k, Some r)])). split; [auto|simpl; auto].
+        * exists (set_children m (children m ++ [(kstrip k, Some r)])). split; [auto|simpl; auto].
         * intros x X. apply KS. simpl. auto.
     - destruct SI as (I & IDS & NP).
-      destruct (attach_ok s L me m k None I FM Logic.I) as (I2 & N2 & F2 & O2).
-      set (s2 := attach s me k None) in *.
+      destruct (attach_ok s L me m (kstrip k) None I FM Logic.I) as (I2 & N2 & F2 & O2).
+      set (s2 := attach s me (kstrip k) None) in *.
       assert (SI2 : SInv s2 L).
       { split; [exact I2|split].
         - intros j LJ. rewrite N2. apply IDS. unfold live in *.
@@ -1039,7 +1046,7 @@ Section Copy.
       { intros i n Hi. destruct (Z.eq_dec i me); [subst; congruence|]. rewrite O2 by auto. apply BO; auto. }
       specialize (IH s2 L SI2 BO2 LM).
       assert (M2 : exists m0, hfind (heap_of s2) me = Some m0 /\ rc m0 = 1).
-      { exists (set_children m (children m ++ [(k, None)])). split; [auto|simpl; auto]. }
+      { exists (set_children m (children m ++ [(kstrip k, None)])). split; [auto|simpl; auto]. }
       specialize (IH M2 H0M KS).
       destruct (copy_kids C me t s2) as [s3| | |]; auto.
       destruct IH as (SI3 & M3 & GR3). split; [auto|]. split; [auto|].
@@ -1330,6 +1337,8 @@ Proof.
   - apply put_good; auto.
   - destruct A as (K & T). apply (good_of_res_ok s L _ (Ltransfer L v)); auto.
     apply obj_add_ok; auto.
+  - destruct A as (K & T & _). apply (good_of_res_ok s L _ (Ltransfer L v)); auto.
+    apply obj_add_ex_ok; auto.
   - apply (good_of_res_ok s L _ (fun _ => L)); auto. apply obj_del_ok; auto.
   - destruct A as (K & T). apply (good_of_res_ok s L _ (Ltransfer L v)); auto. apply arr_add_ok; auto.
   - destruct A as (K & Z & T). apply (good_of_res_ok s L _ (Ltransfer L v)); auto. apply arr_put_ok; auto.
@@ -1551,7 +1560,7 @@ Qed.
    the id of the copy on success) *)
 Definition failed (o : op) (ret : Z) : bool :=
   match o with
-  | OObjAdd _ _ _ | OArrAdd _ _ | OArrPut _ _ _ | OArrIns _ _ _ | OArrDel _ _ _ | OPtrSet _ _ _ => negb (ret =? 0)
+  | OObjAdd _ _ _ | OObjAddEx _ _ _ _ _ | OArrAdd _ _ | OArrPut _ _ _ | OArrIns _ _ _ | OArrDel _ _ _ | OPtrSet _ _ _ => negb (ret =? 0)
   | OCopy _ _ => ret <? 0
   | _ => false
   end.
@@ -1564,9 +1573,13 @@ Ltac crush_fail :=
           | H : context[match ?x with _ => _ end] |- _ => destruct x eqn:?; try discriminate
           end).
 
+Lemma obj_add_ex_fail : forall s p k v nw cst s' ret evs,
+  obj_add_ex s p k v nw cst = ROk s' ret evs -> ret <> 0 -> s' = s /\ evs = [].
+Proof. intros s p k v nw cst s' ret evs H NZ. unfold obj_add_ex in H. crush_fail; try lia; auto. Qed.
+
 Lemma obj_add_fail : forall s p k v s' ret evs,
   obj_add s p k v = ROk s' ret evs -> ret <> 0 -> s' = s /\ evs = [].
-Proof. intros s p k v s' ret evs H NZ. unfold obj_add in H. crush_fail; try lia; auto. Qed.
+Proof. intros. eapply obj_add_ex_fail; eauto. Qed.
 
 Lemma arr_add_fail : forall s p v s' ret evs,
   arr_add s p v = ROk s' ret evs -> ret <> 0 -> s' = s /\ evs = [].
@@ -1621,6 +1634,8 @@ Proof.
   intros s o s' ret evs NP H F.
   destruct o; simpl in F; try discriminate; simpl in H.
   - assert (NZ : ret <> 0) by lia. destruct (obj_add_fail _ _ _ _ _ _ _ H NZ). repeat split; auto.
+    intros. simpl. replace (ret =? 0) with false by lia. reflexivity.
+  - assert (NZ : ret <> 0) by lia. destruct (obj_add_ex_fail _ _ _ _ _ _ _ _ _ H NZ). repeat split; auto.
     intros. simpl. replace (ret =? 0) with false by lia. reflexivity.
   - assert (NZ : ret <> 0) by lia. destruct (arr_add_fail _ _ _ _ _ _ H NZ). repeat split; auto.
     intros. simpl. replace (ret =? 0) with false by lia. reflexivity.
@@ -1716,3 +1731,58 @@ Qed.
 Lemma ex_self_add : step (mkSt [(1, mkNode 1 KObject [] (Some 0))] 2) (OObjAdd 1 [107] (Some 1))
                     = ROk (mkSt [(1, mkNode 1 KObject [] (Some 0))] 2) (-1) [].
 Proof. reflexivity. Qed.
+
+(* ------------------------------------------------------------------ ownership of member names *)
+Definition heap_key_copies (h : heap) : Z :=
+  fold_right (fun p acc => key_copies (children (snd p)) + acc) 0 h.
+
+Lemma kstrip_kmark : forall k, kstrip (kmark k) = k.
+Proof. reflexivity. Qed.
+
+(* replacing the value of an existing member keeps the entry's name and its flag *)
+Lemma replace_keeps_keys : forall k v cs, map fst (assoc_set k v cs) = map fst cs.
+Proof.
+  induction cs as [|[k' v'] t IH]; simpl; [reflexivity|].
+  destruct (keq (kstrip k') k); simpl; [reflexivity|]. rewrite IH. reflexivity.
+Qed.
+
+Lemma key_copies_fst : forall a b, map fst a = map fst b -> key_copies a = key_copies b.
+Proof.
+  induction a as [|[k v] t IH]; intros [|[k2 v2] t2] H; simpl in *; try discriminate; [reflexivity|].
+  inversion H; subst. rewrite (IH t2); auto.
+Qed.
+
+Theorem replace_keeps_key_copies : forall k v cs, key_copies (assoc_set k v cs) = key_copies cs.
+Proof. intros. apply key_copies_fst. apply replace_keeps_keys. Qed.
+
+Lemma key_copies_app : forall a b, key_copies (a ++ b) = key_copies a + key_copies b.
+Proof. induction a as [|[k v] t IH]; intros; simpl; [lia|]. rewrite IH. lia. Qed.
+
+(* a new member costs one key copy unless the caller lends a constant key *)
+Theorem insert_key_copies : forall cs k v (cst : bool), kconst k = false ->
+  key_copies (cs ++ [(if cst then kmark k else k, v)]) = key_copies cs + (if cst then 0 else 1).
+Proof.
+  intros. rewrite key_copies_app. destruct cst; simpl; [lia|]. rewrite H. lia.
+Qed.
+
+(* deleting a member never creates a key copy and removes at most one *)
+Theorem delete_key_copies : forall k cs,
+  key_copies cs - 1 <= key_copies (assoc_del k cs) <= key_copies cs.
+Proof.
+  induction cs as [|[k' v'] t IH]; simpl; [lia|].
+  destruct (keq (kstrip k') k); simpl; destruct (kconst k'); lia.
+Qed.
+
+(* with everything released there is no member list left that could hold a key copy *)
+Theorem all_released_no_key_copies : forall h L, Inv h L -> (forall i, L i = 0) -> heap_key_copies h = 0.
+Proof. intros. rewrite (all_released_empty h L H H0). reflexivity. Qed.
+
+(* non-vacuity: constant and copied keys in one object, replace keeps the flag *)
+Lemma ex_keys :
+  exists s1 s2 s3,
+    step (mkSt [(1, mkNode 1 KObject [] (Some 0))] 2) (OObjAddEx 1 [97] None true true) = ROk s1 0 [] /\
+    step s1 (OObjAddEx 1 [98] None false false) = ROk s2 0 [] /\
+    step s2 (OObjAddEx 1 [97] None false false) = ROk s3 0 [] /\
+    heap_key_copies (heap_of s3) = 1 /\
+    option_map children (hfind (heap_of s3) 1) = Some [(kmark [97], None); ([98], None)].
+Proof. repeat eexists; reflexivity. Qed.
